@@ -7,6 +7,8 @@
 (* renders them to Logica text with harness/ir.py; nothing about them is   *)
 (* defined on the Python side.                                             *)
 (*                                                                         *)
+(* A version: [prog, attached, dataset, grounded] (see GroundSem); stale    *)
+(* tables are named "alias.name" like the keys of Ground's `file`.         *)
 (* Shapes kept out on purpose (known engine deviations recorded for C02):  *)
 (* aggregation over nothing, nulls, zero-key aggregation over an empty     *)
 (* body.  List-valued aggregates are kept out as well so that every bag is *)
@@ -31,7 +33,14 @@ Fact1(e) == Rl(<<Hd("col0", e)>>, <<>>)
 Pd(name, rules) == [name |-> name, rules |-> rules, inline |-> FALSE,
                     order |-> <<>>, limit |-> -1]
 Pg(preds) == [preds |-> preds, rec |-> <<>>, makes |-> <<>>]
-Gr(p, t) == [p |-> p, t |-> t]
+Gr(p, t) == [p |-> p, t |-> t]       \* t: "" (default dataset, table p) or "alias.name"
+Ver(prog, attached, dataset, grounded) ==
+  [prog |-> prog, attached |-> attached, dataset |-> dataset, grounded |-> grounded]
+Fact2(a, b) == Rl(<<Hd("col0", a), Hd("col1", b)>>, <<>>)
+PdOL(name, rules, order, limit) == [name |-> name, rules |-> rules, inline |-> FALSE,
+                                    order |-> order, limit |-> limit]
+Asc(f) == [f |-> f, desc |-> FALSE]
+Desc(f) == [f |-> f, desc |-> TRUE]
 Stale(t, bag) == [t |-> t, bag |-> bag]
 
 \* code points
@@ -52,14 +61,14 @@ sz == <<122>>
 F1T(words) == Pd("T", [i \in 1..Len(words) |-> Fact1(St(words[i]))])
 F1S == Pd("S", <<RlD(<<HdAgg("logica_value", "Sum", Nm(1))>>, <<At("T", <<>>)>>)>>)
 Family1 ==
-  [name |-> "docs_wall", attach |-> "logica_home",
-   versions |-> << [prog |-> Pg(<<F1T(<<mene, mene, tekel, upharsin>>), F1S>>),
-                    grounded |-> <<Gr("T", "T")>>],
-                   [prog |-> Pg(<<F1T(<<mene, mene, tekel, upharsin, peres>>), F1S>>),
-                    grounded |-> <<Gr("T", "T")>>] >>,
+  [name |-> "docs_wall",
+   versions |-> << Ver(Pg(<<F1T(<<mene, mene, tekel, upharsin>>), F1S>>),
+                       <<"logica_home">>, "", <<Gr("T", "")>>),
+                   Ver(Pg(<<F1T(<<mene, mene, tekel, upharsin, peres>>), F1S>>),
+                       <<"logica_home">>, "", <<Gr("T", "")>>) >>,
    runnable |-> <<"S", "T">>,
-   stale |-> <<Stale("T", <<[col0 |-> <<"s", stale>>]>>),
-               Stale("Other", <<[k |-> <<"n", 7>>]>>)>>]
+   stale |-> <<Stale("logica_home.T", <<[col0 |-> <<"s", stale>>]>>),
+               Stale("logica_home.Other", <<[k |-> <<"n", 7>>]>>)>>]
 
 (* Family 2: a chain of two grounded predicates over a multiset.           *)
 (*   E(1); E(2); E(2);  @Ground(P); @Ground(Q);                            *)
@@ -72,15 +81,15 @@ F2Q == Pd("Q", <<Rl(<<Hd("col0", Bin("+", Vr("x"), Nm(1)))>>,
 F2R == Pd("R", <<Rl(<<Hd("col0", Vr("x"))>>,
                     <<At("Q", <<Ar("col0", Vr("x"))>>), At("P", <<Ar("col0", Vr("x"))>>)>>)>>)
 Family2 ==
-  [name |-> "chain", attach |-> "logica_test",
-   versions |-> << [prog |-> Pg(<<F2E(<<1, 2, 2>>), F2P, F2Q, F2R>>),
-                    grounded |-> <<Gr("P", "P"), Gr("Q", "Q")>>],
-                   [prog |-> Pg(<<F2E(<<3, 4, 4, 5>>), F2P, F2Q, F2R>>),
-                    grounded |-> <<Gr("P", "P")>>] >>,
+  [name |-> "chain",
+   versions |-> << Ver(Pg(<<F2E(<<1, 2, 2>>), F2P, F2Q, F2R>>),
+                       <<"logica_test">>, "", <<Gr("P", ""), Gr("Q", "")>>),
+                   Ver(Pg(<<F2E(<<3, 4, 4, 5>>), F2P, F2Q, F2R>>),
+                       <<"logica_test">>, "", <<Gr("P", "")>>) >>,
    runnable |-> <<"R", "Q", "P">>,
-   stale |-> <<Stale("P", <<[col0 |-> <<"n", 7>>], [col0 |-> <<"n", 8>>]>>),
-               Stale("Q", <<[col0 |-> <<"n", 8>>]>>),
-               Stale("Other", <<[k |-> <<"n", 7>>]>>)>>]
+   stale |-> <<Stale("logica_test.P", <<[col0 |-> <<"n", 7>>], [col0 |-> <<"n", 8>>]>>),
+               Stale("logica_test.Q", <<[col0 |-> <<"n", 8>>]>>),
+               Stale("logica_test.Other", <<[k |-> <<"n", 7>>]>>)>>]
 
 (* Family 3: two independent grounded predicates with named columns, one   *)
 (* under an explicit table name, read through an ungrounded middle.        *)
@@ -109,15 +118,16 @@ F3Only == Pd("OnlyBig", <<RlD(<<Hd("name", Vr("name"))>>,
                               <<At("Big", <<Ar("name", Vr("name"))>>)>>)>>)
 F3Prog(fs) == Pg(<<F3F(fs), F3Tot, F3Big, F3M, F3Top, F3Only>>)
 Family3 ==
-  [name |-> "independent_named", attach |-> "logica_test",
-   versions |-> << [prog |-> F3Prog(<< <<sx, 1>>, <<sx, 2>>, <<sy, 5>> >>),
-                    grounded |-> <<Gr("Tot", "totals"), Gr("Big", "Big")>>],
-                   [prog |-> F3Prog(<< <<sx, 1>>, <<sx, 2>>, <<sy, 5>>, <<sz, 2>>, <<sz, 2>> >>),
-                    grounded |-> <<Gr("Tot", "totals"), Gr("Big", "Big")>>] >>,
+  [name |-> "independent_named",
+   versions |-> << Ver(F3Prog(<< <<sx, 1>>, <<sx, 2>>, <<sy, 5>> >>), <<"logica_test">>, "",
+                       <<Gr("Tot", "logica_test.totals"), Gr("Big", "")>>),
+                   Ver(F3Prog(<< <<sx, 1>>, <<sx, 2>>, <<sy, 5>>, <<sz, 2>>, <<sz, 2>> >>),
+                       <<"logica_test">>, "",
+                       <<Gr("Tot", "logica_test.totals"), Gr("Big", "")>>) >>,
    runnable |-> <<"Top", "OnlyBig", "Tot">>,
-   stale |-> <<Stale("totals", <<[name |-> <<"s", stale>>, total |-> <<"n", 99>>]>>),
-               Stale("Big", <<[name |-> <<"s", sx>>], [name |-> <<"s", stale>>]>>),
-               Stale("Other", <<[k |-> <<"n", 7>>]>>)>>]
+   stale |-> <<Stale("logica_test.totals", <<[name |-> <<"s", stale>>, total |-> <<"n", 99>>]>>),
+               Stale("logica_test.Big", <<[name |-> <<"s", sx>>], [name |-> <<"s", stale>>]>>),
+               Stale("logica_test.Other", <<[k |-> <<"n", 7>>]>>)>>]
 
 (* Family 4: a grounded predicate below another one through an ungrounded  *)
 (* middle, read again through a disjunction; the attach form of the docs.  *)
@@ -137,16 +147,114 @@ F4Z == Pd("Z", <<Rl(<<Hd("col0", Vr("x"))>>,
                     <<Alt(<< <<At("B", <<Ar("col0", Vr("x"))>>)>>,
                              <<At("A", <<Ar("col0", Vr("x"))>>)>> >>)>>)>>)
 Family4 ==
-  [name |-> "through_middle", attach |-> "logica_home",
-   versions |-> << [prog |-> Pg(<<F4N, F4A(1), F4Mid, F4B, F4Z>>),
-                    grounded |-> <<Gr("A", "A"), Gr("B", "B")>>],
-                   [prog |-> Pg(<<F4N, F4A(2), F4Mid, F4B, F4Z>>),
-                    grounded |-> <<Gr("B", "B")>>] >>,
+  [name |-> "through_middle",
+   versions |-> << Ver(Pg(<<F4N, F4A(1), F4Mid, F4B, F4Z>>), <<"logica_home">>, "",
+                       <<Gr("A", ""), Gr("B", "")>>),
+                   Ver(Pg(<<F4N, F4A(2), F4Mid, F4B, F4Z>>), <<"logica_home">>, "",
+                       <<Gr("B", "")>>) >>,
    runnable |-> <<"Z", "B", "A">>,
-   stale |-> <<Stale("A", <<[col0 |-> <<"n", 7>>]>>),
-               Stale("B", <<[col0 |-> <<"n", 2>>], [col0 |-> <<"n", 2>>]>>),
-               Stale("Other", <<[k |-> <<"n", 7>>]>>)>>]
+   stale |-> <<Stale("logica_home.A", <<[col0 |-> <<"n", 7>>]>>),
+               Stale("logica_home.B", <<[col0 |-> <<"n", 2>>], [col0 |-> <<"n", 2>>]>>),
+               Stale("logica_home.Other", <<[k |-> <<"n", 7>>]>>)>>]
 
-Families == <<Family1, Family2, Family3, Family4>>
+(* Family 5: grounded predicates that are ordered and limited - one given  *)
+(* by several rules (UNION ALL), one by a single rule.  The order is total *)
+(* (all columns), and in both the first rows in rule order are NOT the     *)
+(* rows the order selects.                                                 *)
+(*   A("b", 5); A("a", 1); B("c", 3); B("d", 9);                           *)
+(*   @Ground(Top); @OrderBy(Top, "col1 desc", "col0"); @Limit(Top, 2);     *)
+(*   Top(n, v) :- A(n, v);  Top(n, v) :- B(n, v);                          *)
+(*   @Ground(Low); @OrderBy(Low, "col1", "col0"); @Limit(Low, 1);          *)
+(*   Low(n, v) :- A(n, v);                                                 *)
+(*   Report(n) :- Top(n, v);   Span(n, m) :- Top(n, v), Low(m, w);         *)
+(* Version 2: B("d", 0) instead of B("d", 9), one more A.                  *)
+sa == <<97>>
+sb == <<98>>
+sc == <<99>>
+sd == <<100>>
+F5Facts(name, fs) == Pd(name, [i \in 1..Len(fs) |-> Fact2(St(fs[i][1]), Nm(fs[i][2]))])
+F5Copy(name, from) == Rl(<<Hd("col0", Vr("n")), Hd("col1", Vr("v"))>>,
+                         <<At(from, <<Ar("col0", Vr("n")), Ar("col1", Vr("v"))>>)>>)
+F5Top == PdOL("Top", <<F5Copy("Top", "A"), F5Copy("Top", "B")>>, <<Desc("col1"), Asc("col0")>>, 2)
+F5Low == PdOL("Low", <<F5Copy("Low", "A")>>, <<Asc("col1"), Asc("col0")>>, 1)
+F5Report == Pd("Report", <<Rl(<<Hd("col0", Vr("n"))>>,
+                              <<At("Top", <<Ar("col0", Vr("n")), Ar("col1", Vr("v"))>>)>>)>>)
+F5Span == Pd("Span", <<Rl(<<Hd("col0", Vr("n")), Hd("col1", Vr("m"))>>,
+                          <<At("Top", <<Ar("col0", Vr("n")), Ar("col1", Vr("v"))>>),
+                            At("Low", <<Ar("col0", Vr("m")), Ar("col1", Vr("w"))>>)>>)>>)
+F5Prog(as, bs) == Pg(<<F5Facts("A", as), F5Facts("B", bs), F5Top, F5Low, F5Report, F5Span>>)
+Family5 ==
+  [name |-> "order_limit",
+   versions |-> << Ver(F5Prog(<< <<sb, 5>>, <<sa, 1>> >>, << <<sc, 3>>, <<sd, 9>> >>),
+                       <<"logica_test">>, "", <<Gr("Top", ""), Gr("Low", "")>>),
+                   Ver(F5Prog(<< <<sb, 5>>, <<sa, 1>>, <<sc, 4>> >>, << <<sc, 3>>, <<sd, 0>> >>),
+                       <<"logica_test">>, "", <<Gr("Top", ""), Gr("Low", "")>>) >>,
+   runnable |-> <<"Report", "Span", "Top">>,
+   stale |-> <<Stale("logica_test.Top", <<[col0 |-> <<"s", sa>>, col1 |-> <<"n", 1>>],
+                                          [col0 |-> <<"s", sb>>, col1 |-> <<"n", 5>>]>>),
+               Stale("logica_test.Low", <<[col0 |-> <<"s", sb>>, col1 |-> <<"n", 5>>]>>)>>]
+
+(* Family 6: string-valued grounded predicates whose literals contain `;`  *)
+(* at the end of a line, newlines (triple-quoted in the source), single    *)
+(* and double quotes.  The multi-line literal sits in the head of a        *)
+(* single-rule predicate, i.e. at the top level of the generated SELECT    *)
+(* (inside a nested select the SQL formatter re-indents it: that is        *)
+(* finding F-C10-newline-indent, property C10, not this one).              *)
+(*   E(1); E(2);   @Ground(Msg); @Ground(W);                               *)
+(*   Msg(x, """go;<nl>it's "x";<nl>end""") :- E(x);                        *)
+(*   W("a;"); W("it's"); W('say "hi";');                                   *)
+(*   Loud(x, m ++ "!") :- Msg(x, m);   Both(m, w) :- Msg(1, m), W(w);      *)
+(* Version 2: another multi-line text, one more W.                         *)
+txt1 == <<103, 111, 59, 10, 105, 116, 39, 115, 32, 34, 120, 34, 59, 10, 101, 110, 100>>
+txt2 == <<59, 10, 59, 10, 39, 39, 32, 111, 107, 59>>
+wa == <<97, 59>>
+wits == <<105, 116, 39, 115>>
+wsay == <<115, 97, 121, 32, 34, 104, 105, 34, 59>>
+wsemi == <<59, 59, 32, 39, 59>>
+F6E == Pd("E", <<Fact1(Nm(1)), Fact1(Nm(2))>>)
+F6Msg(t) == Pd("Msg", <<Rl(<<Hd("col0", Vr("x")), Hd("col1", St(t))>>,
+                           <<At("E", <<Ar("col0", Vr("x"))>>)>>)>>)
+F6W(ws) == Pd("W", [i \in 1..Len(ws) |-> Fact1(St(ws[i]))])
+F6Loud == Pd("Loud", <<Rl(<<Hd("col0", Vr("x")), Hd("col1", Bin("++", Vr("m"), St(<<33>>)))>>,
+                          <<At("Msg", <<Ar("col0", Vr("x")), Ar("col1", Vr("m"))>>)>>)>>)
+F6Both == Pd("Both", <<Rl(<<Hd("col0", Vr("m")), Hd("col1", Vr("w"))>>,
+                          <<At("Msg", <<Ar("col0", Nm(1)), Ar("col1", Vr("m"))>>),
+                            At("W", <<Ar("col0", Vr("w"))>>)>>)>>)
+Family6 ==
+  [name |-> "string_literals",
+   versions |-> << Ver(Pg(<<F6E, F6Msg(txt1), F6W(<<wa, wits, wsay>>), F6Loud, F6Both>>),
+                       <<"logica_test">>, "", <<Gr("Msg", ""), Gr("W", "")>>),
+                   Ver(Pg(<<F6E, F6Msg(txt2), F6W(<<wa, wits, wsay, wsemi>>), F6Loud, F6Both>>),
+                       <<"logica_test">>, "", <<Gr("Msg", ""), Gr("W", "")>>) >>,
+   runnable |-> <<"Loud", "Both", "Msg">>,
+   stale |-> <<Stale("logica_test.Msg", <<[col0 |-> <<"n", 7>>, col1 |-> <<"s", stale>>]>>),
+               Stale("logica_test.W", <<[col0 |-> <<"s", stale>>]>>)>>]
+
+(* Family 7: several attached databases and @Dataset.                      *)
+(*   @AttachDatabase("logica_home", f1); @AttachDatabase("archive", f2);   *)
+(*   @Dataset("archive");                                                  *)
+(*   @Ground(T);                          -> table T of the archive file   *)
+(*   @Ground(P, "logica_home.my_table");  -> explicit database and name    *)
+(*   E(1); E(2); E(2);  T(x) :- E(x);  P(x + 1) :- T(x);                   *)
+(*   S(x) :- P(x), T(y);                                                   *)
+(* Version 2: no @Dataset (T defaults to logica_home, the archive table    *)
+(* stays behind), P explicitly in the archive, other facts.                *)
+F7T == Pd("T", <<Rl(<<Hd("col0", Vr("x"))>>, <<At("E", <<Ar("col0", Vr("x"))>>)>>)>>)
+F7P == Pd("P", <<Rl(<<Hd("col0", Bin("+", Vr("x"), Nm(1)))>>,
+                    <<At("T", <<Ar("col0", Vr("x"))>>)>>)>>)
+F7S == Pd("S", <<Rl(<<Hd("col0", Vr("x"))>>,
+                    <<At("P", <<Ar("col0", Vr("x"))>>), At("T", <<Ar("col0", Vr("y"))>>)>>)>>)
+Family7 ==
+  [name |-> "datasets",
+   versions |-> << Ver(Pg(<<F2E(<<1, 2, 2>>), F7T, F7P, F7S>>), <<"logica_home", "archive">>,
+                       "archive", <<Gr("T", ""), Gr("P", "logica_home.my_table")>>),
+                   Ver(Pg(<<F2E(<<3, 4>>), F7T, F7P, F7S>>), <<"logica_home", "archive">>,
+                       "", <<Gr("T", ""), Gr("P", "archive.my_table")>>) >>,
+   runnable |-> <<"S", "P", "T">>,
+   stale |-> <<Stale("logica_home.T", <<[col0 |-> <<"n", 7>>]>>),
+               Stale("archive.T", <<[col0 |-> <<"n", 8>>]>>),
+               Stale("logica_home.my_table", <<[col0 |-> <<"n", 9>>]>>)>>]
+
+Families == <<Family1, Family2, Family3, Family4, Family5, Family6, Family7>>
 
 =============================================================================
